@@ -315,6 +315,17 @@ func wsEcho(req *rawhttp.Message, conn net.Conn, br *bufio.Reader) {
 		return
 	}
 	conn.SetDeadline(time.Now().Add(10 * time.Minute))
+	if strings.Contains(req.Target, "/close-now/") {
+		// the backend ends this session itself with a normal closure (1000), after one greeting
+		conn.Write([]byte{0x81, 5, 'h', 'e', 'l', 'l', 'o'})
+		code := 1000
+		if strings.Contains(req.Target, "/going-away/") {
+			code = 1001
+		}
+		conn.Write([]byte{0x88, 2, byte(code >> 8), byte(code)})
+		time.Sleep(50 * time.Millisecond)
+		return
+	}
 	tag := req.Target
 	if i := strings.IndexByte(tag, '?'); i >= 0 {
 		tag = tag[:i]
